@@ -11,7 +11,7 @@ from . import c10
 RULE = (
     "construct: generated construction programs (children as lists, dicts with renaming, strings, pre-constructed securities with lazy_add on/off, nested strategies, nodes attached "
     "later with parent=; duplicate sibling names as the negative class): parent/root/members/full_name must agree with the described structure, duplicates must raise ValueError, "
-    "use_integer_positions and set_commissions must reach every descendant. universe: generated backtests over generated trees with a probe algo in every strategy: the universe's "
+    "use_integer_positions and set_commissions must reach every descendant; a second tree built from the very same child objects / dict is wired to itself, shares no node with the first, and the caller's objects stay detached under their own names. universe: generated backtests over generated trees with a probe algo in every strategy: the universe's "
     "columns are exactly the declared tickers present in the data (all tickers when none declared) plus one column per sub-strategy whose values equal that child's price index; "
     "settings pushed from the top reach children created lazily mid-run. lazy_vs_eager: the same backtest with children named by strings vs pre-constructed Security objects gives equal "
     "histories (1e-9). non-trivial = depth >= 2 or a renamed/late-attached child (construct); a scoped universe with a sub-strategy column (universe); at least two trades (lazy_vs_eager). "
@@ -53,8 +53,9 @@ def construct_spec(draw):
     return spec
 
 
-def build_prog(bt, name, prog, cls="Strategy", parent=None, dup=False):
-    """returns (node, expected structure dict name -> (kind, sub-structure))"""
+def build_prog(bt, name, prog, cls="Strategy", parent=None, dup=False, twin=None):
+    """returns (node, expected structure dict name -> (kind, sub-structure)); with twin (a dict) a second node is constructed from the
+    very same child objects / dict, the way a user builds two portfolios from one set of definitions"""
     ctor_children = []
     later = []
     expected = {}
@@ -96,6 +97,10 @@ def build_prog(bt, name, prog, cls="Strategy", parent=None, dup=False):
         node = bt.core.Strategy(name, [], **kw)
     else:
         node = bt.core.StrategyBase(name, **kw)
+    if twin is not None:
+        twin["objs"] = [(nm, obj, k["name"]) for (nm, obj), k in zip(ctor_children, [k for k in prog["children"] if k["attach"] == "ctor"]) if not isinstance(obj, str)]
+        twin["expected"] = {nm: v for nm, v in expected.items() if nm not in {k["name"] for k in later}}
+        twin["node"] = bt.core.Strategy(name, [], **kw) if cls == "Strategy" else bt.core.StrategyBase(name, **kw)
     for k in later:
         if k["kind"] == "sec":
             sec = bt.core.Security(k["name"], multiplier=k["mult"])
@@ -156,10 +161,25 @@ def case_construct(ctx, spec):
         if len(real) != len(set(real)) or set(node.children) & set(node._lazy_children):
             raise Violation("duplicate sibling names in the tree: %s" % sorted(names), signature="c19:duplicate-accepted")
         return {"nontrivial": False, "labels": ["duplicate:collapsed"]}
+    twin = {}
     try:
-        root, expected = build_prog(bt, "root", prog)
+        root, expected = build_prog(bt, "root", prog, twin=twin)
     except Exception as e:
         raise Violation("construction raised %s: %s" % (type(e).__name__, str(e)[:200]), signature="c19:construct-raises")
+    # the same child objects (same list / same dict) used for a second tree: both trees are wired to themselves, share no node, and the
+    # caller's own objects stay what they were (detached, under their own names)
+    t2 = twin["node"]
+    check_structure(bt, t2, twin["expected"], t2, ["root"], True)
+    ids1 = {id(m) for m in root.members} | {id(c) for m in root.members for c in getattr(m, "_lazy_children", {}).values()}
+    ids2 = {id(m) for m in t2.members} | {id(c) for m in t2.members for c in getattr(m, "_lazy_children", {}).values()}
+    if ids1 & ids2:
+        shared = [m.full_name for m in t2.members if id(m) in ids1]
+        raise Violation("two trees built from the same child objects share nodes: %s" % shared, signature="c19:shared-node")
+    for nm, obj, own in twin["objs"]:
+        if id(obj) in ids1 or id(obj) in ids2:
+            raise Violation("the caller's own object %r (passed as %r) was wired into a tree instead of a copy" % (own, nm), signature="c19:caller-object-wired")
+        if obj.name != own or obj.parent is not obj or obj.root is not obj:
+            raise Violation("the caller's own object %r was changed by building a tree from it: name %r, parent %r" % (own, obj.name, getattr(obj.parent, "name", None)), signature="c19:caller-object-changed")
     # some nodes may have been switched on their own before the setting is pushed from the top
     for k_, m_ in enumerate(root.members):
         if m_ is not root and spec.get("flips") and spec["flips"][k_ % len(spec["flips"])]:
@@ -443,6 +463,18 @@ def settings_spec(draw):
 
 
 def case_settings(ctx, spec):
+    try:
+        return _case_settings(ctx, spec)
+    except (Violation, Discard):
+        raise
+    except Exception as e:
+        from ..harness import bt_frame_signature
+
+        # every step is ordinary use of the public API on a well-formed tree and data set: an error is an outcome, not a harness failure
+        raise Violation("a well-formed sequence of pushes, attachments and trades raised %s: %s; steps %s" % (type(e).__name__, str(e)[:200], spec["steps"]), signature="c19:settings-raises:" + bt_frame_signature(e))
+
+
+def _case_settings(ctx, spec):
     bt = ctx.bt
     import pandas as pd
 
